@@ -209,4 +209,40 @@ CHECKS['C11'] = dict(
     assumptions=[],
 )
 
+CHECKS['C19'] = dict(
+    src='checks/c19_laws.cpp',
+    runs=[dict(cfg='asan', env={'VERIF_PART': 'small'}), dict(cfg='plain', env={'VERIF_PART': 'bits'}), dict(cfg='plain', env={'VERIF_PART': 'big'})],
+    technique='exhaustive enumeration of all strings up to a length bound: relation bit-matrices over all pairs, algebraic laws over all triples by row operations; exhaustive sweep of all 2^32 integers',
+    level_text='For all 4681 strings of length <= 4 (thorough: all 37449 of length <= 5; length <= 3 additionally under ASan+UBSan) over {a,A,b,B,_,.,/,0} the relations IsEqualCaseInsensitive (comes-before), IsEqual and PathsAreEqual are evaluated on ALL pairs and the laws are decided on ALL triples through bit-matrix row operations: the comparator is irreflexive, asymmetric, transitive, its incomparability is transitive and coincides with IsEqual; PathsAreEqual is reflexive, symmetric, transitive, contains IsEqual, and ignores a leading ./ for every relative path of plain components. On the same set: GetFilename(Append(d,f)) == f for every relative d and plain f; Append(GetDirectory(p),GetFilename(p)) equals p for every p where the functions are defined; ChangeFileExtension(f,e) matches e in 6 spellings for 6 extensions. Bytes >= 0x80: all single-byte strings (thorough: plus 19 boundary bytes to length 3) under the same ordering laws. IsPowerOf2 is compared with popcount == 1 for all 2^32 values, Log2OfPowerOf2 for all 32 powers.',
+    level_note='Pure functions: the exhaustive pair/triple enumeration is the whole claim; strings longer than 4 and random long strings (sampling) are not covered. The 2^32 sweep and the length-4 matrices run in the plain -O2 build, length <= 3 under ASan+UBSan.',
+    rule='states = strings / integers enumerated; transitions = relation evaluations and row comparisons',
+    bounds={'quick': '4681 strings (2.2e7 pairs, 1e11 triples), 255 single bytes, 7240 boundary-byte strings; all 2^32 integers', 'thorough': '37449 strings (1.4e9 pairs, 5e13 triples) for the ordering and path-equality laws; path laws on 4681 strings'},
+    must_hit={'any': ['order/pairs', 'order/triples', 'path-equality/pairs', 'path-equality/triples', 'path-equality/dot-slash-prefix', 'path/join-filename', 'path/split-rejoin-relative', 'path/split-rejoin-rooted', 'path/extension-names', 'bits/values', 'bits/logarithms']},
+    assumptions=['"plain component" = non-empty, not . or .., no slash'],
+)
+
+CHECKS['C17'] = dict(
+    src='checks/c17_lookup.cpp',
+    runs=[dict(cfg='asan')],
+    technique='small-scope exhaustive enumeration of archives x query variants and of directory layouts x queries, executed on the real lookup and resource-manager code against reference-encoded archives',
+    level_text='Archives: every reference-encoded VOL over all member subsets of size 0..3 of an 11-name pool (with 0..2 unused slots) and every CLM over 1..2 of 7 track names; queries = each member name as is / upper / lower / swapped case, each with and without a leading ./, near misses (one character more or less), absent and empty names: Contains(q) iff GetIndex(q) does not throw iff a member equals q up to case and the prefix; GetName(GetIndex(q)) names that member; GetIndex(GetName(i)) == i; indices count, count+1, SIZE_MAX, SIZE_MAX-1, 2^32, 2^32+count-1 are refused by GetName, GetSize, OpenStream, ExtractFile (and GetCompressionCode). Resource manager: 512 layouts (thorough 1024) in which each of a.txt, B.TXT, c.map, s is independently loose / in v1.vol / in v2.vol with distinct contents everywhere, next to a sub-directory, directories named dir.vol and dir.clm and a CLM archive, a quarter of them in a root directory whose own name contains the query patterns. Every query name x 8 case and ./ variants x accessArchives: the loose file under exactly that spelling wins, else the member of the first archive in GetArchiveFilenames() order that contains the name case-blindly, else nothing; rooted paths are refused; directory names give nothing. Type listings (8 extensions) and pattern listings (6 patterns) are checked by a sandwich oracle (every case-exact match present; nothing that fails a case-insensitive match, no directories, no members without archive access; in type listings no two entries equal ignoring case); FindContainingArchivePath names an archive that contains the name, or is empty iff none does.',
+    level_note='Trusts ref_vol/ref_clm encoders, g++/ASan/UBSan, tmpfs directory iteration. The archive order is taken from GetArchiveFilenames() (directory iteration order is not specified).',
+    rule='state = one archive or one directory layout; transitions = lookup / resource-manager calls judged',
+    bounds={'quick': '232 VOL + 28 CLM archives; 512 layouts', 'thorough': '1024 layouts'},
+    must_hit={'any': ['archive/lookups-found', 'archive/lookups-absent', 'archive/out-of-range-indices', 'resources/loose-first', 'resources/from-archive', 'resources/expected-nothing', 'resources/rooted-paths', 'resources/directory-names', 'resources/type-listings', 'resources/pattern-listings', 'resources/containing-archive-found']},
+    assumptions=['the file system is case sensitive (Linux): a loose file is found only under its exact spelling'],
+)
+
+CHECKS['C20'] = dict(
+    src='checks/c20_limits.cpp',
+    runs=[dict(cfg='asan')],
+    technique='exhaustive enumeration of every on-disk field limit, at and just beyond, on the real writers (sparse files for the 2^31 / 2^32 cases)',
+    level_text='VOL: member sizes 2^31, 2^32-1, 2^32, 2^32+5 and a 2^31+1 member between small ones (sparse files), and member sets whose accumulated block offset crosses 2^32 (three x (2^31-1); 2^31-1 + 2^31-1 + 100; 3 + 2^31-1 + 2^31-1 + 1) must be refused with the destination absent afterwards, or - when it pre-existed with sentinel content - byte-identical; sets well inside the limits are accepted with exact size fields (thorough: a member of exactly 2^31-1 bytes is really packed). CLM: track sets whose data offset + length crosses 2^32 (four shapes) are refused; base names of 8 characters are accepted with the exact name field, 9 and 16 characters refused. Size prefixes: containers of max-1, max, max+1, max+2 elements for u8, i8, u16, i16 prefixes (vector and string): refusal iff too large, nothing written on refusal, exact field value otherwise. Map container sizes 2^32-2, 2^32-1 accepted, 2^32, 2^32+1, 2^33-1, 2^64-1 refused. ArtFile::Write with every layer-list length 0..130 x every 7-bit count 0..127 x optional flag (33536 frames): accepted iff the list length equals the count, and then re-read with that many layers.',
+    level_note='Trusts tmpfs sparse files, g++/ASan/UBSan. 2^32-element containers cannot be built: the map guard function is called directly (private, via -fno-access-control). CLM refusals may happen after the destination was created (the property requires refusal-before-creation only for volumes).',
+    rule='state = one limit probe; transitions = writer calls judged',
+    bounds={'quick': '9 VOL size sets, 4 CLM offset sets, 10 names, 32 prefix probes, 8 map sizes, 33536 frames', 'thorough': 'adds the 2 GiB accept case'},
+    must_hit={'any': ['vol/beyond-the-limit', 'vol/at-the-limit-accepted', 'clm/offset-beyond-32-bits', 'clm/name-of-8', 'clm/name-of-9-or-more', 'prefix/beyond-the-limit', 'prefix/at-the-limit', 'map/beyond-the-limit', 'map/at-the-limit', 'frames/mismatch', 'frames/match']},
+    assumptions=['the VOL block length field has 31 bits, so the largest member is 2^31-1 bytes'],
+)
+
 NOT_APPLICABLE = {}
